@@ -46,9 +46,9 @@ def edit1_count(n, ntok):
 
 # ---- pumping family u . w^n . v ------------------------------------------------------------------
 PUMP_TOKENS = ['*', '_', '[', ']', '(', ')', '`', '<', '>', '!', '\\', 'a', ' ', '\n', '> ', '- ', '1. ', '#', '|', '~',
-               '&', '\t', '**', '](', '<a ', '"', '![', '$', '{{', '[[', '=', '+ ', ':', '-', '| --- ', '|---', ' | ', '--- | ']
+               '&', '\t', '**', '](', '<a ', '"', '![', '$', '{{', '[[', '=', '+ ', ':', '-', '| --- ', '|---', ' | ', '--- | ', ' a=b', ' a="b"', ' #', '~~', '&#', 'a;', '- - ', '\\']
 PUMP_U = ['', '[', '`', '<a ', '*', '> ', '- ', '![', '<!--', '```\n', '# ', '| a |\n|---|\n', 'a | b\n']
-PUMP_V = ['', ']', '`', '>', ')', '*', '\n\n[a]: b', '](u)', '\n', ' -=-\n', 'x |\n']
+PUMP_V = ['', ']', '`', '>', ')', '*', '\n\n[a]: b', '](u)', '\n', ' -=-\n', 'x |\n', 'x', '#', '"']
 
 
 def pump_words(maxlen):
